@@ -107,6 +107,29 @@ def check_insert_offered(rep, fl, rule="R16.7"):
               "try_insert_in can return without offering the item to the insert buffer: the store already holds the new value, the policy never hears of its cost")
 
 
+def check_policy_cost(rep, fl, rule="R16.5"):
+    """LFUPolicy::cost(k) is the charged cost of k: the value stored in key_costs (what the sweeper reports to
+    on_evict for an expired entry), a negative marker when the key is not charged."""
+    b = fl.facts.flat(fl.policy_fn("cost"))
+    try:
+        paths = sym_paths(b)
+    except TooManyStates:
+        paths = None
+    ok = bool(paths)
+    for lits, ret in paths or []:
+        r = norm(ret) if ret is not None else None
+        some = [v for a, v in lits if norm(a)[0] == "variant" and norm(a)[2] == "Some" and is_call(norm(a)[1], "HashMap::get")]
+        none = [v for a, v in lits if norm(a)[0] == "variant" and norm(a)[2] == "None" and is_call(norm(a)[1], "HashMap::get")]
+        found = (some == [True]) or (none == [False])
+        if found:
+            ok = ok and r is not None and r[0] == "field" and r[1][0] == "downcast" and r[1][2] == "Some" and is_call(r[1][1], "HashMap::get") and \
+                norm(r[1][1][2][1]) == V(b.local_name.get(2, "k")) and mentions(r[1][1][2][0], ("field", ("field", ("call", "parking_lot::lock_api::Mutex::lock", (F(V("self"), "inner"),)), "costs"), "key_costs"))
+        else:
+            ok = ok and r is not None and r[0] == "const" and isinstance(r[1], int) and r[1] < 0
+    rep.check(ok, rule, fl, b, "cost(k)", "policy.cost(k) returns the charge stored for k (negative when k is not charged)",
+              "policy.cost(k) no longer returns the stored charge of k: the cost reported for an expired entry is not its charged cost")
+
+
 def check_arms_reach_policy(rep, fl, rule="R16.3"):
     """Every applied item reaches the policy: whatever its field values, a New item goes through policy.add, an
     Update through policy.update and a Delete through policy.remove (no early way out of the arm before the call:
@@ -212,6 +235,7 @@ def check_C16(rep, fl):
                   "policy.update is called with (%s, %s)" % (show(a[1]), show(a[2])), loc=t["sp"])
     check_arms_reach_policy(rep, fl)
     check_insert_offered(rep, fl)
+    check_policy_cost(rep, fl)
     # who may charge: the cost handed to the policy is computed in handle_item only (the sites checked above)
     other = "r#async" if fl.name == "sync" else "::sync::"
     outside = []
@@ -268,21 +292,15 @@ def check_C16(rep, fl):
     ok = len(pn) == 1 and norm(fin.call_args(pn[0][1])[1]) == norm(F(V("self"), "inner", "ignore_internal_cost"))
     rep.check(ok, "R16.4", fl, fin, "flag from builder", "finalize passes the builder's ignore_internal_cost", "finalize does not pass the builder's ignore_internal_cost")
     # ---- R16.5 victims carry the sampled charge; evicted item reports it --------------------------
-    vic = None
-    for l, name in hi.local_name.items():
-        ds = hi.defs.get(l, [])
-        if len(ds) == 1:
-            e = norm(hi.def_expr(ds[0][0], ds[0][1], True))
-            if e[0] == "field" and e[1][0] == "downcast" and e[1][2] == "Some" and is_call(e[1][1], "Iterator::next"):
-                vic = V(name)
-    evs = calls_to(hi, "CacheCallback::on_evict")
-    ok = vic is not None and len(evs) == 1
+    # on the flattened handler: the element of the iteration over the victim list, whatever the loop is written as
+    hf = facts.flat(hi)
+    evs = calls_to(hf, "CacheCallback::on_evict")
+    its_ = [i_ for i_ in iterations(hf) if evs and evs[0][0] in i_.region]
+    ok = len(evs) == 1 and len(its_) >= 1
     if ok:
-        a = [norm(x) for x in hi.call_args(evs[0][1], expand_vars=False)]
-        ie = norm(hi.expand(a[1]))
-        f = agg_fields(ie)
-        vexp = norm(hi.expand(vic))
-        ok = f.get("cost") == ("field", vexp, "cost") and f.get("index") == ("field", vexp, "key")
+        it_ = min(its_, key=lambda i_: len(i_.region))
+        f = agg_fields(it_.canon(hf.call_args(evs[0][1])[1]))
+        ok = f.get("cost") == ("field", ("elem",), "cost") and f.get("index") == ("field", ("elem",), "key")
     rep.check(ok, "R16.5", fl, hi, "victim cost", "an evicted victim is reported with the cost the policy charged for it (PolicyPair.cost)", "the evicted item's cost/index are not taken from the victim pair")
     import props_policy
     props_policy.check_victim_pair(rep, fl)
@@ -1064,6 +1082,9 @@ def check_C15(rep, fl):
     # every handle feeds the same lookup buffer: a batch fills up across handles and nothing is lost with a handle
     check_handle_sharing(rep, fl, fields=("get_buf", "policy", "metrics"))
     check_batch_applied(rep, fl)
+    # "accounted exactly once as kept or dropped in the metrics": the counters themselves add and read correctly
+    import props_store
+    props_store.keep_sites(rep, fl, check_metrics_core, ("add", "Metrics::add forwards", "get sums stripes", "get_gets_dropped", "get_gets_kept", "installed once"))
     # "in batches of buffer_items": the value given to the builder is the ring's capacity
     import props_panic
     props_panic.check_builder_plumbing(rep, fl, only_sites=("set_buffer_items", "buffer_items -> ring", "metrics flag", "set_metrics", "set_* keeps buffer_items", "set_* keeps metrics"))
@@ -1127,6 +1148,11 @@ def check_C15(rep, fl):
         rep.check(ok, "R15.2", fl, rb, "emptied", "the batch buffer is emptied whatever the outcome of the flush", "after a flush the buffer can keep its contents: the same lookups are recorded twice")
     import props_store
     props_store.check_single_section(rep, fl, "R15.2", [fl.ring + "::push"], "appending a lookup, handing the full batch over (or copying it) and emptying the buffer")
+    rn_ = facts.body(fl.ring + "::new", required=False)
+    cf_ = ctor_fields(facts, norm(return_expr(rn_))) if rn_ is not None and return_expr(rn_) is not None else None
+    rep.check(cf_ is not None and norm(cf_[1].get("capa", ())) == V(rn_.local_name.get(2, "arg2")) and norm(cf_[1].get("cons", ())) == V(rn_.local_name.get(1, "arg1")),
+              "R15.2", fl, rn_ if rn_ is not None else fl.ring, "new(cons, capa)", "the ring keeps the policy and the batch size it was built with",
+              "RingStripe::new does not store its `capa` argument as the batch size (or its policy argument): lookups are not flushed in batches of buffer_items")
     ed = batch_edits(rb)
     rep.check(not ed, "R15.2", fl, rb, "batch not edited", "the pending batch is only appended to, handed over and emptied",
               "the pending batch is edited before it is handed over (%s): lookups are lost without being accounted as dropped" % ", ".join(ed), loc=None)
@@ -1161,12 +1187,24 @@ def check_C15(rep, fl):
     incs = calls_to(hb, "policy::TinyLFU::increments")
     ok = len(incs) == 1
     if ok:
+        # the batch is the last parameter; the mutex is self.inner, or a parameter that the worker loop binds to it
+        items_v = V(hb.local_name.get(hb.arg_count, "arg%d" % hb.arg_count))
         sts = [expand_state(hb, s, hist=True) for s in at.get((incs[0][0], term_idx(hb, incs[0][0])), set())]
-        ok = all(any(a[0] == "variant" and a[2] == "Ok" and v and a[1] == V("items") for a, v in s.lits) for s in sts)
+        ok = all(any(a[0] == "variant" and a[2] == "Ok" and v and a[1] == items_v for a, v in s.lits) for s in sts)
         a = [norm(x) for x in hb.call_args(incs[0][1], expand_vars=True)]
         lockd = var_def_exprs(hb, a[0][1]) if a[0][0] == "field" else []
-        ok = ok and a[1] == ("field", ("downcast", V("items"), "Ok"), "0") and a[0][0] == "field" and a[0][2] == "admit" and \
-            (is_call(a[0][1], "Mutex::lock") or (len(lockd) == 1 and is_call(lockd[0], "Mutex::lock") and norm(lockd[0][2][0]) == norm(F(V("self"), "inner"))))
+        lk_ = a[0][1] if a[0][0] == "field" and is_call(a[0][1], "Mutex::lock") else (lockd[0] if len(lockd) == 1 and is_call(lockd[0], "Mutex::lock") else None)
+        mtx = norm(lk_[2][0]) if lk_ is not None else None
+        if mtx is not None and mtx[0] == "var" and mtx != V("self"):
+            pos = next((i_ for i_ in range(1, hb.arg_count + 1) if hb.local_name.get(i_) == mtx[1]), None)
+            bound = []
+            spb = facts.body(fl.pproc + "::spawn", required=False)
+            for x in (descendants(facts, spb) if spb is not None else []):
+                for _, t_ in calls_to(x, fl.pproc + "::handle_items"):
+                    if pos is not None:
+                        bound.append(canon_self(x, norm(x.expand(norm(x.call_args(t_)[pos - 1])))))
+            mtx = bound[0] if bound and all(b_ == bound[0] for b_ in bound) else None
+        ok = ok and a[1] == ("field", ("downcast", items_v, "Ok"), "0") and a[0][0] == "field" and a[0][2] == "admit" and mtx == norm(F(V("self"), "inner"))
         for bi in hb.live_blocks():
             t = hb.term(bi)
             if t and t["k"] == "switch":
